@@ -15,7 +15,7 @@ import (
 // ---- C11: request queues are bounded FIFOs that lose, duplicate or strand nothing ----
 
 func init() {
-	setTier("C11", 24000, 150, 600000, 1200)
+	setTier("C11", 200000, 150, 6000000, 1500)
 	levelOf["C11"] = "exploration"
 	ruleOf["C11"] = "one run = one seeded scenario (queue kind, capacity, prologue, 1-3 producers and 1-3 consumers with 1-4 ops each) under one seeded schedule; non-trivial = at least one context switch happened while a task was inside a recorded queue operation; distinct = distinct FNV fingerprint of (context-switch sequence as (task, file:line), fault sequence, recorded history outcome)"
 	assumptionsOf["C11"] = []string{
